@@ -266,5 +266,5 @@ def now():
 def write_json(path, obj):
     os.makedirs(os.path.dirname(path), exist_ok=True)
     with open(path, "w") as f:
-        json.dump(obj, f, indent=1, sort_keys=True)
+        json.dump(obj, f, indent=1, sort_keys=True, default=lambda o: o.decode('utf-8', 'backslashreplace') if isinstance(o, bytes) else repr(o))
         f.write("\n")
